@@ -238,3 +238,66 @@ func (w *sliceWriter) Write(p []byte) (int, error) {
 	*w.b = append(*w.b, p...)
 	return len(p), nil
 }
+
+// H_renderRace (C09): two goroutines render templates of one freshly compiled bundle at once -
+// through Tofu.Render (via 0), through one shared Renderer (via 1) or through a Renderer each
+// (via 2); the second goroutine renders the same template (other 0) or another one (other 1) -
+// under the happens-before check of every heap access and under both run-queue disciplines.
+// Nothing has been rendered through this bundle before (caches, if any, are cold). The renders
+// are race-free and each writes exactly what it writes alone (rendered alone through a second,
+// identically compiled bundle).
+func H_renderRace(t, d, via, other int) {
+	srcs := append(append([]string{}, c08Templates[t]...), c08Failing)
+	tofu, ref := verifMustCompile(srcs...), verifMustCompile(srcs...)
+	c08Msgs = nil
+	if t == 3 {
+		c08Msgs = c08MakeCatalogue(tofu)
+	}
+	m, ij := c08Data(d), data.Map{"inj": data.String("I")}
+	names := []string{"a.t", "a.t"}
+	if other == 1 {
+		names[1] = "f.plain"
+	}
+	mk := func(tf *Tofu, name string) *Renderer {
+		r := tf.NewRenderer(name).Inject(ij)
+		if c08Msgs != nil {
+			r = r.WithMessages(c08Msgs)
+		}
+		return r
+	}
+	shared := mk(tofu, "a.t")
+	render := func(tf *Tofu, sh *Renderer, g int) string {
+		var out []byte
+		w := &sliceWriter{&out}
+		var err error
+		switch {
+		case via == 0:
+			err = tf.Render(w, names[g], m)
+		case via == 1 && names[g] == "a.t":
+			err = sh.Execute(w, m)
+		default:
+			err = mk(tf, names[g]).Execute(w, m)
+		}
+		if err != nil {
+			return string(out) + " !error"
+		}
+		return string(out)
+	}
+	verifSchedChoice()
+	verifRaceTrack(true)
+	var wg sync.WaitGroup
+	got := make([]string, 2)
+	for g := 0; g < 2; g++ {
+		wg.Add(1)
+		go func(g int) {
+			defer wg.Done()
+			got[g] = render(tofu, shared, g)
+		}(g)
+	}
+	wg.Wait()
+	verifRaceTrack(false)
+	refShared := mk(ref, "a.t")
+	alone := []string{render(ref, refShared, 0), render(ref, refShared, 1)}
+	verifObserve("out", alone[0])
+	verifAssert(got[0] == alone[0] && got[1] == alone[1], "C09: a render running beside another one writes different bytes")
+}
